@@ -622,4 +622,41 @@ func runC20(raw json.RawMessage, w *Writer) {
 		w.Emit(Ev{"ev": "mutate", "which": "header", "site": siteJ{Side: side, Kind: "result_append"}, "applied": true, "res": r,
 			"before": before, "other": observe(other)})
 	}
+	// A header may hold extension elements while its X bit is switched off (the application clears the bit, or reuses a
+	// receiver): the clone taken in that state must own its elements as well. The bit is set again on both sides, then
+	// one side loses its first element and gets a byte of a value changed.
+	for _, side := range []string{"orig", "clone"} {
+		orig, err := buildPacket(c.P)
+		if err != nil || len(orig.GetExtensionIDs()) == 0 {
+			return
+		}
+		w.Emit(Ev{"ev": "reset", "class": c.Class})
+		orig.Extension = false
+		var clone *rtp.Packet
+		if r, _ := guard(func() { clone = orig.Clone() }); r != "ok" || clone == nil {
+			continue
+		}
+		orig.Extension, clone.Extension = true, true
+		target, other := orig, clone
+		if side == "clone" {
+			target, other = clone, orig
+		}
+		before := observe(other)
+		r, _ := guard(func() {
+			ids := target.GetExtensionIDs()
+			if len(ids) > 1 {
+				if v := target.GetExtension(ids[1]); len(v) > 0 {
+					v[0] ^= 0xFF
+				}
+			}
+			if len(ids) > 0 {
+				if v := target.GetExtension(ids[0]); len(v) > 0 {
+					v[len(v)-1] ^= 0xFF
+				}
+				_ = target.DelExtension(ids[0])
+			}
+		})
+		w.Emit(Ev{"ev": "mutate", "which": "header", "site": siteJ{Side: side, Kind: "cloned_with_x_bit_off"}, "applied": true, "res": r,
+			"before": before, "other": observe(other)})
+	}
 }
